@@ -848,15 +848,57 @@ def locate_fn(contract):
     return items[0]
 
 
-def emit_fn(contract, verified, info):
+CASE_RE = re.compile(r'^(\s*)(.*?)\s*==>\s*(.*?),\s*//\s*\[case:([^\]]+)\]\s*$')
+
+
+def split_cases(head):
+    """Separate `guard ==> clause, // [case:LABEL]` lines from the rest of a contract head."""
+    base, cases = [], []
+    for line in head.split('\n'):
+        m = CASE_RE.match(line)
+        if m:
+            cases.append((m.group(4), m.group(2).strip(), m.group(3).strip()))
+        else:
+            base.append(line)
+    return '\n'.join(base), cases
+
+
+def emit_fn_cases(contract, info, impl_header):
+    """One copy of the REAL body per `[case:X]` clause, verified under `requires guard` with only that clause as
+    postcondition (plus the function's own requires).  Sound case split of the conjunction of all case clauses;
+    each copy lives in its own module so that Verus checks them in parallel."""
+    base_head, cases = split_cases(contract.head)
+    out = []
+    for label, guard, clause in cases:
+        c2 = Contract(contract.key, contract.src_path, contract.origin)
+        # base head without its ensures block: keep signature + requires, replace ensures by the single clause
+        sig = head_signature(base_head)
+        req = re.search(r'^\s*requires\b(.*?)(?=^\s*(ensures|decreases)\b|\Z)', base_head[len(sig):], re.S | re.M)
+        reqs = req.group(1).rstrip() if req else ''
+        newname = contract.name + '__case_' + re.sub(r'[^A-Za-z0-9_]', '_', label)
+        sig2 = re.sub(r'\bfn\s+' + re.escape(contract.name) + r'\b', 'fn ' + newname, sig, 1)
+        c2.head = sig2 + '\n    requires\n        ' + guard + ', // [case_guard]' + ('\n' + reqs if reqs.strip() else '') + '\n    ensures\n        ' + clause + ', // [' + label + ']\n'
+        c2.directives = contract.directives
+        c2.case_of = contract.key
+        text = emit_fn(c2, True, info, key_override=contract.key + '#' + label, skip_sigcheck_name=contract.name)
+        out.append('pub mod case_%s { use super::*;\n%s {\n%s}\n}\n' % (re.sub(r'[^A-Za-z0-9_]', '_', label), impl_header, text))
+    return '\n'.join(out)
+
+
+def emit_fn(contract, verified, info, key_override=None, skip_sigcheck_name=None):
     item = locate_fn(contract)
     real_sig = norm_sig(item.signature)
-    want_sig = norm_sig(head_signature(contract.head))
+    head_for_sig = head_signature(contract.head)
+    if skip_sigcheck_name:
+        head_for_sig = re.sub(r'\bfn\s+[A-Za-z_][A-Za-z0-9_]*', 'fn ' + skip_sigcheck_name, head_for_sig, 1)
+    want_sig = norm_sig(head_for_sig)
     if real_sig != want_sig:
         raise GenError('%s: signature of %s changed (lost anchor)\n  source  : %s\n  contract: %s'
                        % (contract.origin, contract.key, real_sig, want_sig))
-    head = desugar_impl_args(contract.head.rstrip('\n'))
-    rec = {'fn': contract.key, 'source': '%s:%d-%d' % (contract.src_path, item.line, item.end_line),
+    base_head, cases = split_cases(contract.head)
+    head_text = contract.head if key_override else base_head
+    head = desugar_impl_args(head_text.rstrip('\n'))
+    rec = {'fn': key_override or contract.key, 'source': '%s:%d-%d' % (contract.src_path, item.line, item.end_line),
            'contract': contract.origin, 'verified_here': verified}
     if not verified:
         info['stubs'].append(rec)
@@ -881,7 +923,7 @@ def emit_fn(contract, verified, info):
     info['functions'].append(rec)
     if info.get('variant') == 'vacuity':
         head = vacuous_head(head)
-    return '//@@BEGIN %s\n' % contract.key + head + '\n' + body + '\n//@@END %s\n' % contract.key
+    return '//@@BEGIN %s\n' % (key_override or contract.key) + head + '\n' + body + '\n//@@END %s\n' % (key_override or contract.key)
 
 
 def vacuous_head(head):
@@ -942,6 +984,12 @@ def expand(unit, db=None, outdir=None, variant=None):
                 owner = s.split(None, 1)[1].strip()
                 pending_rest.append((len(lines), owner))
                 lines.append('')
+            elif s.startswith('//@fncases '):
+                m = re.match(r'//@fncases\s+(\S.*?)\s+in\s+(.+)$', s)
+                key, impl_header = m.group(1).strip(), m.group(2).strip()
+                if key not in db:
+                    raise GenError('unit %s: no contract for %s' % (unit, key))
+                lines.append(emit_fn_cases(db[key], info, impl_header))
             elif s.startswith('//@allmut '):
                 m = re.match(r'//@allmut\s+(\w+)\s+@\s+(.*)$', s)
                 check_all_mut(m.group(1), m.group(2).split(), info)
